@@ -445,17 +445,20 @@ def link_edits(spec):
                               lambda s, sv=sv, t=t: s["servers"][sv].__setitem__("server_type", t),
                               change=lambda b, sv=sv, t=t: [b[sv].server_type, _server_type_obj(t)]))
     # links re-pointed at BRAND-NEW objects (not yet part of any system)
+    # (one new object PER edit, under a handle of its own, live and in the specification alike: two such edits in a history make two objects)
     for up in spec["ups"]:
-        def live_n(b, up=up):
-            b.obj["net_new"] = Network("net_new", bandwidth_energy_intensity=Q((0.3, "kWh/GB"))); setattr(b[up], "network", b["net_new"])
-        def spec_n(s, up=up):
-            s["networks"]["net_new"] = {"bei": (0.3, "kWh/GB")}; s["ups"][up]["network"] = "net_new"
+        h = f"net_new_{up}"
+        def live_n(b, up=up, h=h):
+            b.obj[h] = Network(h, bandwidth_energy_intensity=Q((0.3, "kWh/GB"))); setattr(b[up], "network", b[h])
+        def spec_n(s, up=up, h=h):
+            s["networks"][h] = {"bei": (0.3, "kWh/GB")}; s["ups"][up]["network"] = h
         E.append(Edit(f"{up}.network->NEW", live_n, spec_n))
     for sv in spec["servers"]:
-        def live_s(b, sv=sv):
-            b.obj["st_new"] = Storage.ssd("st_new", base_storage_need=Q((4, "TB"))); setattr(b[sv], "storage", b["st_new"])
-        def spec_s(s, sv=sv):
-            s["storages"]["st_new"] = {"base_storage_need": (4, "TB")}; s["servers"][sv]["storage"] = "st_new"
+        h = f"st_new_{sv}"
+        def live_s(b, sv=sv, h=h):
+            b.obj[h] = Storage.ssd(h, base_storage_need=Q((4, "TB"))); setattr(b[sv], "storage", b[h])
+        def spec_s(s, sv=sv, h=h):
+            s["storages"][h] = {"base_storage_need": (4, "TB")}; s["servers"][sv]["storage"] = h
         E.append(Edit(f"{sv}.storage->NEW", live_s, spec_s))
     ups, journeys, networks, countries, steps, jobs, servers = (list(spec[k]) for k in ("ups", "journeys", "networks", "countries", "steps", "jobs", "servers"))
     for up in ups:
